@@ -13,6 +13,7 @@ func ruleC10(prog *Program, rep *Report) {
 	rulePoolPut(prog, rep, "sen.Writer", "sen.Parser")
 	ruleMemberStore(prog, rep) // a string written as "a" + "b" pieces is joined onto the member stored last
 	ruleGenTwins(prog, rep, 2, "pretty")
+	ruleGlobalReturn(prog, rep, 5, "pretty", "sen")
 	ruleEntryParity(prog, rep, "sen.Writer", "sen.Parser")
 	rep.Rules = append(rep.Rules, "A-stale (SEN): sen.Parser and sen.Tokenizer, explored alone, never read control state left by a previous call and never append to a scratch buffer whose content was consumed (a string would come back with a stale prefix)")
 	sres := exploreFrontEnds(prog, senFrontEnds, []bool{false}, true)
